@@ -302,7 +302,7 @@ def model_lines(lines):
 
 def run(ctx):
     rng = ctx.rng
-    scale = 6 if ctx.thorough else 1
+    scale = 4 if ctx.thorough else 1
     ctx.rule = ("seeded generator (random.Random('C43-<seed>')): moduli files of 0..12 lines (valid, each "
                 "rejection reason, malformed text, random fields) at toy bit sizes 1..70 and at real sizes "
                 "512..10000; requests near the sizes present: consistent, inverted, prefer<min, prefer>max, "
